@@ -159,3 +159,21 @@ Example C17_web_premises_met :
   forallb (fun p => web_ok p wk1 && web_ok p wk2) [prof_GoogleSafeBrowsing; prof_Semantic] = true /\
   oracle_ascii_transparent idna_toy.
 Proof. exact (conj (proj1 prof_web_predefined) (conj (proj1 (proj2 prof_web_predefined)) (conj (proj2 (proj2 prof_web_predefined)) (conj (proj1 experimental_premises) idna_toy_H1)))). Qed.
+
+(* the same with IPv4 and IPv6 literal hosts in any spelling (Proofs/WebHostNumeric.v, ExperimentalHosts.v): web_ok' is web_ok
+   with the host clause widened to LDH domain || IPv4 text (decimal / octal / hex parts, one to four of them) || bracketed
+   IPv6 text (any spelling parseIPv6 accepts); excluded are exactly leading, trailing and doubled dots, on which the
+   profiles' own host clean-up is not inert (WebHostNumeric.hostfun_dots_needed) *)
+From Verif Require Import Proofs.WebHostNumeric Proofs.ExperimentalHosts.
+Theorem C17_gsb_fixed_point_any_host : forall idna_raw k u s, oracle_ascii_transparent idna_raw ->
+  web_ok' prof_GoogleSafeBrowsing k = true ->
+  ProfileParse idna_raw prof_GoogleSafeBrowsing (text_of k) = CUrl u -> Href u false = Some s ->
+  exists u', ProfileParse idna_raw prof_GoogleSafeBrowsing s = CUrl u' /\ same_components u' u /\ Href u' false = Some s.
+Proof. exact gsb_fixed_point'. Qed.
+Print Assumptions C17_gsb_fixed_point_any_host.
+Theorem C17_semantic_fixed_point_any_host : forall idna_raw k u s, oracle_ascii_transparent idna_raw ->
+  web_ok' prof_Semantic k = true ->
+  ProfileParse idna_raw prof_Semantic (text_of k) = CUrl u -> Href u false = Some s ->
+  exists u', ProfileParse idna_raw prof_Semantic s = CUrl u' /\ same_components u' u /\ Href u' false = Some s.
+Proof. exact semantic_fixed_point'. Qed.
+Print Assumptions C17_semantic_fixed_point_any_host.
